@@ -134,7 +134,7 @@ CHECKS = {
              'operation; under it bool() and == 0 are EXACT zero tests and == is exact; rational + - * / neg inv pow are correct '
              '(cross-multiplied), well-formedness is preserved, no zero divisors.  Structural correspondence on random operation sequences '
              'incl. the invariant of every reachable object; sympy oracle for tosympy.',
-        technique='Rocq proof (structural induction on merge loops, leading-term argument) + structural differential correspondence',
+        technique='Rocq proof (structural induction on merge loops, leading-term argument); compare and the Polynomial methods __eq__/__bool__/__neg__/__add__/__mul__ translated from the source with kernel-checked bridge lemmas (fuel induction); structural differential correspondence',
         ref='DESIGN.md 4 (C17)'),
     'C18': dict(
         text='PARTIAL.  Finite-domain theorem (bound in the statement): for every default-basis algebra with 1 <= d <= 4, all signature '
